@@ -78,6 +78,15 @@ def run_unit(specname, workdir, probe_fn=None, extra_args=()):
     out = os.path.join(workdir, specname + ("" if probe_fn is None else "_p%s" % hashlib.md5(probe_fn.encode()).hexdigest()[:8]) + ".rs")
     res = U.build_unit(spec, out, probe_fn=probe_fn)
     r = V.run_verus(out, res["linemap"], res["info"], extra_args=list(extra_args) + merge_args(extra_args, spec.verus_args))
+    names = U.missing_helpers(r.compile_errors)
+    if names and probe_fn is None and not os.environ.get("VX_INLINE"):
+        # R21: the unit calls helper functions that are not extracted; inline the one-expression ones and try again (once).
+        # The setting stays for the rest of this process (the vacuity probes must see the same text).
+        os.environ["VX_INLINE"] = ",".join(sorted(names))
+        os.environ["VX_DEFS"] = ":".join(os.path.join(U.REPO, m.file) for m in spec.modules if m.file)
+        U._extract_cache.clear()
+        res = U.build_unit(spec, out, probe_fn=probe_fn)
+        r = V.run_verus(out, res["linemap"], res["info"], extra_args=list(extra_args) + merge_args(extra_args, spec.verus_args))
     return spec, res, r
 
 
